@@ -121,6 +121,33 @@ Theorem parser_limit_position : forall ts n, (n <= length ts)%nat ->
 Proof. exact pos_of_floor. Qed.
 Print Assumptions parser_limit_position.
 
+(* token_count is the number of tokens in front of the first EOF; all of them were consumed *)
+Theorem parser_token_count : forall e o ts d c,
+  parse_entry e o ts = Ok (d, c) ->
+  exists pre rest, map sig ts = pre ++ rest /\ c = length pre /\
+                   Forall (fun t => (fst t =? K_EOF) = false) pre /\ kind_at rest = K_EOF.
+Proof. exact parse_entry_count. Qed.
+Print Assumptions parser_token_count.
+
+(* on source text: token_count + 1 (the EOF) = number of significant tokens of the lexer *)
+Theorem parser_token_count_text : forall e o s ts d c, e <> ECoordinate -> lex s = Ok ts ->
+  parse_text e o s = Ok (d, c) -> S c = length (significant ts).
+Proof. exact parse_text_count. Qed.
+Print Assumptions parser_token_count_text.
+
+Theorem parser_text_token_limit_iff : forall e o n s d c,
+  parse_text e (with_max o (Some n)) s = Ok (d, c) <->
+  parse_text e (with_max o None) s = Ok (d, c) /\ (c <= n)%nat.
+Proof. exact parse_text_limit_iff. Qed.
+Print Assumptions parser_text_token_limit_iff.
+
+(* "a token limit of n accepts exactly the documents with at most n tokens" *)
+Theorem parser_text_token_limit_tokens : forall e o n s ts d c, e <> ECoordinate -> lex s = Ok ts ->
+  (parse_text e (with_max o (Some n)) s = Ok (d, c) <->
+   parse_text e (with_max o None) s = Ok (d, c) /\ (length (significant ts) <= S n)%nat).
+Proof. exact parse_text_limit_tokens. Qed.
+Print Assumptions parser_text_token_limit_tokens.
+
 (* ---- (d) layout independence ------------------------------------------------------------- *)
 
 (* the parser consumes only (kind, value) of the significant tokens: equal sequences give equal
